@@ -43,6 +43,7 @@ pub fn spaces(tier: Tier) -> Vec<Space> {
         }
     }
     v.push(seqspace::keyword_table());
+    v.push(seqspace::unicode_words());
     v.push(seqspace::lexeme_variants());
     v
 }
